@@ -138,6 +138,10 @@ func checkC03(r *core.Run) {
 		}
 		pureOfRuntimeState(r, "C03.pure", "the executor (images, lock keys)", append(ex, reachFrom(w, ex, pExecAT)...), nil)
 		r.Floor("C03.pure", 20)
+		// the table name that heads every lock key is TableMeta.TableName, which is whatever name the meta cache
+		// asked the loader for: the cache must load an entry under its own (normalised) key, otherwise the key text
+		// of one row depends on how the statement that happened to fill the entry spelled the table
+		c03MetaKey(r)
 		// the combined image query of a multi-statement decides the lock keys as well
 		c18Sticky(r, live, "C03.sticky")
 		r.Floor("C03.sticky", 1)
@@ -668,4 +672,37 @@ func derivesFromName(f *core.FuncInfo, e ast.Expr, name string, depth int) bool 
 		}
 	}
 	return false
+}
+
+// c03MetaKey: in the table-meta cache the name handed to the loader is the cache key itself.
+func c03MetaKey(r *core.Run) {
+	w := r.W
+	t := w.NamedType("pkg/datasource/sql/datasource/base", "BaseTableMetaCache")
+	f := methodInfo(w, t, "GetTableMeta")
+	if r.Anchor("C03.format", f, "BaseTableMetaCache.GetTableMeta") == nil {
+		return
+	}
+	r.Fn(f)
+	info := f.Pkg.TypesInfo
+	var keys, loads []string
+	var loadPos token.Pos
+	ast.Inspect(f.Decl.Body, func(n ast.Node) bool {
+		switch x := n.(type) {
+		case *ast.IndexExpr:
+			if sel, ok := ast.Unparen(x.X).(*ast.SelectorExpr); ok && sel.Sel.Name == "cache" {
+				keys = append(keys, origin(f, x.Index, 3))
+			}
+		case *ast.CallExpr:
+			if g := core.Callee(info, x); g != nil && g.Name() == "LoadOne" && len(x.Args) >= 3 {
+				loads = append(loads, origin(f, x.Args[2], 3))
+				loadPos = x.Pos()
+			}
+		}
+		return true
+	})
+	keys, loads = uniq(keys), uniq(loads)
+	r.Sites++
+	ok := len(keys) == 1 && len(loads) == 1 && keys[0] == loads[0] && (strings.Contains(keys[0], "strings.ToUpper(") || strings.Contains(keys[0], "strings.ToLower("))
+	r.Check(ok, "C03.format", core.ShortKey(f.Obj)+" loads an entry under its own normalised cache key", w.Pos(loadPos), "key and loaded name: "+strings.Join(keys, ","),
+		"the cache is keyed by ["+strings.Join(keys, ",")+"] but asks the loader for ["+strings.Join(loads, ",")+"]: TableMeta.TableName, the head of every lock key, then carries the spelling of whichever statement filled the entry, so two branches can register 't_user:1' and 'T_USER:1' for one row and the coordinator sees no conflict")
 }
